@@ -363,6 +363,103 @@ func checkProperty(p *Program, prop, tier string, timeoutS, workers int, start t
 			}
 		}
 	}
+	// invariant closure: a proof in this cone assumes, at the entry of every function in it, the invariants that function lists as
+	// "preserves". That assumption is only justified if EVERY operation re-establishes the invariant, so the "<label>_kept"
+	// postcondition of every function that declares the invariant belongs to this property's cone as well (and, transitively, the
+	// contracts those proofs use). Without it a change that breaks an invariant in one operation and the property in another
+	// (S68, S93) is reported only by the check of the property the invariant was first written for.
+	if os.Getenv("GOVC_NO_INV_CLOSURE") == "" {
+		for changed := true; changed; {
+			changed = false
+			need := map[string]bool{} // invariant labels assumed at the entry of some function whose obligations count for prop
+			for _, r := range results {
+				if r.Contract == nil || r.Contract.Kind != "func" {
+					continue
+				}
+				counts := false
+				for _, o := range r.Obls {
+					if hasProp(o.Props, prop) {
+						counts = true
+						break
+					}
+				}
+				if !counts {
+					continue
+				}
+				kept := map[string]bool{}
+				for _, e := range r.Contract.Ensures {
+					if strings.HasSuffix(e.Label, "_kept") {
+						kept[strings.TrimSuffix(e.Label, "_kept")] = true
+					}
+				}
+				for _, rq := range r.Contract.Requires {
+					if kept[rq.Label] {
+						need[rq.Label] = true
+					}
+				}
+			}
+			have := map[string]*FuncResult{}
+			for _, r := range results {
+				if r.Contract != nil && r.Contract.Kind == "func" {
+					have[r.Contract.Func] = r
+				}
+			}
+			for _, n := range sortedKeys(p.contracts) {
+				c := p.contracts[n]
+				if c.Kind != "func" || c.Trusted {
+					continue
+				}
+				var labels []string
+				for _, e := range c.Ensures {
+					if strings.HasSuffix(e.Label, "_kept") && need[strings.TrimSuffix(e.Label, "_kept")] {
+						labels = append(labels, e.Label)
+					}
+				}
+				if len(labels) == 0 {
+					continue
+				}
+				r := have[c.Func]
+				if r == nil {
+					r = p.verifyFunc(c)
+					results = append(results, r)
+					have[c.Func] = r
+					done[c.Func] = true
+					funcsUnder = append(funcsUnder, r.Name+" (preserves an invariant this property's proofs assume)")
+					changed = true
+				}
+				for _, o := range r.Obls {
+					if hasProp(o.Props, prop) {
+						continue
+					}
+					for _, l := range labels {
+						if strings.HasSuffix(o.Name, "#post:"+l) {
+							o.Props = append(append([]string{}, o.Props...), prop)
+							changed = true
+						}
+					}
+				}
+			}
+			// contracts used by the newly added proofs join the cone like any other callee
+			for _, r := range results {
+				for callee := range r.Exec.usedContracts {
+					if done[callee] {
+						continue
+					}
+					done[callee] = true
+					changed = true
+					c := p.contracts[callee]
+					cr := p.verifyFunc(c)
+					for _, o := range cr.Obls {
+						if !hasProp(o.Props, prop) {
+							o.Props = append(append([]string{}, o.Props...), prop)
+						}
+					}
+					results = append(results, cr)
+					funcsUnder = append(funcsUnder, cr.Name+" (callee in the cone)")
+				}
+			}
+		}
+	}
 	runDir := filepath.Join(p.verif, ".cache", "run-"+prop)
 	os.RemoveAll(runDir)
 	sv := newSolver(runDir, timeoutS, tier == "thorough")
